@@ -34,6 +34,10 @@ impl ArrayRepeat {
         value: InstructionWithStr,
         len: InstructionWithStr,
     ) -> Result<Instruction, ExecError> {
+        #[cfg(feature = "verif")]
+        if let Instruction::Variable(Variable::Int(len)) = &len.instruction {
+            crate::verif::alloc_guard(*len);
+        }
         match (value, len) {
             (
                 _,
@@ -64,6 +68,8 @@ impl Exec for ArrayRepeat {
         if len < 0 {
             return Err(ExecError::NegativeLength.into());
         }
+        #[cfg(feature = "verif")]
+        crate::verif::alloc_guard(len);
         Ok(var!([value; len]))
     }
 }
